@@ -400,7 +400,8 @@ def run_shard(name, seed, tier, **kw):
         r.exhaustive = True
         return r
     last = {}
-    port_st = st.one_of(st.sampled_from(["COM3", "/dev/ttyACM0", "/dev/cu.usbserial-1410", "a b", "x=y", "p;q", "%d"]),
+    port_st = st.one_of(st.sampled_from(["COM3", "/dev/ttyACM0", "/dev/cu.usbserial-1410", "a b", "x=y", "p;q", "%d", "COM9", "COM10", "COM12", "com27", "COM256", "\\\\.\\COM10", "COM1:", "LPT1",
+                                         "/dev/ttyUSB10", "/dev/serial/by-id/usb-1a86_USB2.0-Serial-if00-port0", "192.168.1.7:8266", "socket://host:23", "rfc2217://h:4000", "tty.usbmodem14101"]),
                         st.text(alphabet="abcXYZ019/._-:=;%# ", min_size=1, max_size=12).map(str.strip).filter(bool))
     case_st = st.fixed_dictionaries({
         "script": st.sampled_from(sorted(SCRIPTS)), "pair": st.sampled_from(sorted(PAIRS)), "upload": st.booleans(),
